@@ -5,10 +5,12 @@
 
      Flag::borrow   Guard { panicking: thread::panicking() };  Err(PoisonError(guard)) iff failed != 0
      Flag::done     if !guard.panicking && thread::panicking() {
-                        let is_canceled = if is_coroutine() { current_cancel_data().is_canceled() } else { false };
+                        let is_canceled = if is_coroutine() { current_cancel_data().is_cancel_unwinding() } else { false };
                         if !is_canceled { failed.store(1) } }
-     is_canceled    Cancel.state.load() == 1      (bit 0 = cancel requested; every disable_cancel adds 2:
-                                                   a disabled cancel does NOT count as cancelled)
+     is_cancel_unwinding   Cancel.unwinding: set by trigger_cancel_panic() right before panic_any(Error::Cancel), never
+                    cleared (fix bce9086, finding F32).  BEFORE that fix the code asked is_canceled():
+                    Cancel.state.load() == 1 (bit 0 = cancel requested; every disable_cancel adds 2) - kept here as
+                    the variant `fixd = false` (done_stores_prefix), on which the property is refuted
      map_result     keeps Ok / Err
      guards         MutexGuard and RwLockWriteGuard carry a poison::Guard and call done() before unlock();
                     RwLockReadGuard carries none: its drop never touches the flag
@@ -36,7 +38,8 @@
 
    Actions: Lock (lock()/write()/read() returns - Ok or Poisoned, both hand out the guard), DropG (explicit drop),
    Move, PanicStart, CancelReq (Cancel::cancel: state.fetch_or(1)), CancelStart (a cancellation point raises the
-   cancel panic: check_cancel / the Canceled branch of a blocking call: state == 1), Disable / Enable (state +- 2),
+   cancel panic - trigger_cancel_panic sets the mark `cunw` first -: check_cancel / the Canceled branch of a blocking call:
+   state == 1), Disable / Enable (state +- 2),
    PushCatch / PopCatch, UnwDrop (the unwinding drops a guard of the frames it leaves), UnwCatch (all of them
    are gone: the nearest catch_unwind - or the root of the task: generator / thread - catches), Return.
    A panic that starts while an unwinding is on top of the stack (no catch_unwind in between) aborts the process:
@@ -47,27 +50,32 @@ Import ListNotations.
 (* ---------------------------------------------------------------- (a) the decision *)
 
 Definition is_canceled (cst : Z) : bool := Z.eqb cst 1.
-Definition done_stores (gpan tpan isco : bool) (cst : Z) : bool :=
+Definition done_stores (gpan tpan isco cunw : bool) : bool :=
+  negb gpan && tpan && negb (if isco then cunw else false).
+Definition done_stores_prefix (gpan tpan isco : bool) (cst : Z) : bool :=
   negb gpan && tpan && negb (if isco then is_canceled cst else false).
 Definition borrow_panicking (tpan : bool) : bool := tpan.
 Definition borrow_err (failed : bool) : bool := failed.
 
 Inductive gkind := GM | GW | GR.
 Definition has_flag (k : gkind) : bool := match k with GR => false | _ => true end.
-Definition drop_poisons (k : gkind) (gpan tpan isco : bool) (cst : Z) : bool :=
-  has_flag k && done_stores gpan tpan isco cst.
+(* fixd = true: the code as it is now; false: before bce9086 *)
+Definition drop_poisons (fixd : bool) (k : gkind) (gpan tpan isco : bool) (cst : Z) (cunw : bool) : bool :=
+  has_flag k && (if fixd then done_stores gpan tpan isco cunw else done_stores_prefix gpan tpan isco cst).
 
-(* the differential function: inputs [mode; kind; isco; pre; gpan; tpan; creq] (the cancel is never disabled
+(* the differential function: inputs [mode; kind; isco; pre; gpan; tpan; creq; cunw] (the cancel is never disabled
    in the runs: state = creq), outputs [lock_err; poisoned; released; later_err; get_mut_err; into_inner_err] *)
 Definition zb (z : Z) : bool := negb (Z.eqb z 0).
 Definition bz (b : bool) : Z := if b then 1%Z else 0%Z.
 Definition kind_of (z : Z) : gkind := if Z.eqb z 0 then GM else if Z.eqb z 1 then GW else GR.
-Definition poison_case (i : list Z) : list Z :=
+Definition poison_case_v (fixd : bool) (i : list Z) : list Z :=
   match i with
-  | [_; kind; isco; pre; gpan; tpan; creq] =>
-      let p := zb pre || drop_poisons (kind_of kind) (zb gpan) (zb tpan) (zb isco) (bz (zb creq)) in
+  | [_; kind; isco; pre; gpan; tpan; creq; cunw] =>
+      let p := zb pre || drop_poisons fixd (kind_of kind) (zb gpan) (zb tpan) (zb isco) (bz (zb creq)) (zb cunw) in
       [bz (borrow_err (zb pre)); bz p; 1%Z; bz (borrow_err p); bz (borrow_err p); bz (borrow_err p)]
   | _ => [] end.
+Definition poison_case := poison_case_v true.
+Definition poison_case_prefix := poison_case_v false.
 
 (* ---------------------------------------------------------------- (b) the guard life cycle *)
 
@@ -75,7 +83,9 @@ Inductive umode := MPanic (v : Z) | MCancel.
 Inductive citem := CCatch | CUnw (m : umode) (ins : list nat).
 Inductive outcome := ORet | OPan (v : Z) | OCan.
 Record guard := { gid : nat; glock : nat; gk : gkind; gpan : bool; gerr : bool; gfr : nat }.
-Record task := { cst : Z; ctl : list citem; held : list guard; fin : option outcome }.
+Record task := { cst : Z; ctl : list citem; held : list guard; fin : option outcome;
+                 cunw : bool;   (* Cancel.unwinding: the cancel panic has been raised in this task *)
+                 swal : bool    (* ghost: a cancellation unwind was caught by a catch_unwind of the task's own code *) }.
 Record lockst := { failed : bool; wheld : option nat; readers : list nat }.
 Record st := { T : nat -> task; L : nat -> lockst; nextg : nat }.
 
@@ -96,12 +106,17 @@ Definition move_g (i d : nat) (l : list guard) : list guard :=
 Fixpoint rm1 (w : nat) (l : list nat) : list nat :=
   match l with [] => [] | x :: r => if Nat.eqb x w then r else x :: rm1 w r end.
 
-Definition set_cst (x : task) c := {| cst := c; ctl := ctl x; held := held x; fin := fin x |}.
-Definition set_ctl (x : task) c := {| cst := cst x; ctl := c; held := held x; fin := fin x |}.
-Definition set_held (x : task) h := {| cst := cst x; ctl := ctl x; held := h; fin := fin x |}.
-Definition set_fin (x : task) c f := {| cst := cst x; ctl := c; held := held x; fin := f |}.
+Definition set_cst (x : task) c := {| cst := c; ctl := ctl x; held := held x; fin := fin x; cunw := cunw x; swal := swal x |}.
+Definition set_ctl (x : task) c := {| cst := cst x; ctl := c; held := held x; fin := fin x; cunw := cunw x; swal := swal x |}.
+Definition set_held (x : task) h := {| cst := cst x; ctl := ctl x; held := h; fin := fin x; cunw := cunw x; swal := swal x |}.
+Definition set_fin (x : task) c f := {| cst := cst x; ctl := c; held := held x; fin := f; cunw := cunw x; swal := swal x |}.
+(* trigger_cancel_panic: the mark, then the panic *)
+Definition set_cancel_unw (x : task) c := {| cst := cst x; ctl := c; held := held x; fin := fin x; cunw := true; swal := swal x |}.
+Definition set_caught (x : task) c (m : umode) :=
+  {| cst := cst x; ctl := c; held := held x; fin := fin x; cunw := cunw x;
+     swal := match m with MCancel => true | MPanic _ => swal x end |}.
 
-Definition task0 := {| cst := 0%Z; ctl := []; held := []; fin := None |}.
+Definition task0 := {| cst := 0%Z; ctl := []; held := []; fin := None; cunw := false; swal := false |}.
 Definition lock0 := {| failed := false; wheld := None; readers := [] |}.
 Definition init : st := {| T := fun _ => task0; L := fun _ => lock0; nextg := 0 |}.
 
@@ -125,6 +140,7 @@ Definition alive (x : task) : bool := match fin x with None => true | Some _ => 
 Section Model.
 Variable isco : nat -> bool.      (* which tasks are coroutines *)
 Variable ismutex : nat -> bool.   (* which locks are a Mutex (the others are RwLocks) *)
+Variable fixd : bool.             (* true: the code as it is now (after bce9086); false: before *)
 
 Definition kind_ok (l : nat) (k : gkind) : bool := match k with GM => ismutex l | _ => negb (ismutex l) end.
 Definition available (lk : lockst) (k : gkind) : bool :=
@@ -145,7 +161,7 @@ Definition release (lk : lockst) (t : nat) (k : gkind) (p : bool) : lockst :=
   | GR => {| failed := failed lk || p; wheld := wheld lk; readers := rm1 t (readers lk) |}
   | _ => {| failed := failed lk || p; wheld := None; readers := readers lk |} end.
 Definition poisons (s : st) (t : nat) (g : guard) : bool :=
-  drop_poisons (gk g) (gpan g) (panicking (T s t)) (isco t) (cst (T s t)).
+  drop_poisons fixd (gk g) (gpan g) (panicking (T s t)) (isco t) (cst (T s t)) (cunw (T s t)).
 Definition do_drop (s : st) (t : nat) (g : guard) : st :=
   let x := T s t in
   {| T := upd (T s) t (set_held x (del_g (gid g) (held x)));
@@ -182,7 +198,7 @@ Definition step (s : st) (a : action) : option st :=
   | CancelStart t =>
       let x := T s t in
       if alive x && isco t && is_canceled (cst x) && negb (top_unw (ctl x))
-      then Some (wT s t (set_ctl x (CUnw MCancel (map gid (held x)) :: ctl x)))
+      then Some (wT s t (set_cancel_unw x (CUnw MCancel (map gid (held x)) :: ctl x)))
       else None
   | Disable t =>
       let x := T s t in
@@ -213,7 +229,7 @@ Definition step (s : st) (a : action) : option st :=
       | CUnw m _ :: r =>
           if alive x && forallb (fun g => Nat.ltb (gfr g) (ncatch r)) (held x)
           then match r with
-               | CCatch :: r' => Some (wT s t (set_ctl x r'))
+               | CCatch :: r' => Some (wT s t (set_caught x r' m))
                | [] => Some (wT s t (set_fin x [] (Some (out_of m))))
                | CUnw _ _ :: _ => None end
           else None
